@@ -87,7 +87,7 @@ VALID_BINOP_TYPES = {
               IntType: {NumType: NumType_any,
                         IntType: IntType_any,
                         FloatType: FloatType_any},
-              FloatType: {NumType: NumType_any,
+              FloatType: {NumType: FloatType_any,
                           IntType: FloatType_any,
                           FloatType: FloatType_any},
               StrType: {StrType: StrType_any},
@@ -99,17 +99,17 @@ VALID_BINOP_TYPES = {
               IntType: {NumType: NumType_any,
                         IntType: IntType_any,
                         FloatType: FloatType_any},
-              FloatType: {NumType: NumType_any,
+              FloatType: {NumType: FloatType_any,
                           IntType: FloatType_any,
                           FloatType: FloatType_any},
               SetType: {SetType: add_element_container_types}},
-    ast.Div: {NumType: {NumType: NumType_any,
-                        IntType: NumType_any,
-                        FloatType: FloatType_any},
-              IntType: {NumType: NumType_any,
+    ast.Div: {NumType: {NumType: FloatType_any,
                         IntType: FloatType_any,
                         FloatType: FloatType_any},
-              FloatType: {NumType: NumType_any,
+              IntType: {NumType: FloatType_any,
+                        IntType: FloatType_any,
+                        FloatType: FloatType_any},
+              FloatType: {NumType: FloatType_any,
                           IntType: FloatType_any,
                           FloatType: FloatType_any}},
     ast.FloorDiv: {NumType: {NumType: NumType_any,
@@ -118,16 +118,16 @@ VALID_BINOP_TYPES = {
                    IntType: {NumType: NumType_any,
                              IntType: IntType_any,
                              FloatType: FloatType_any},
-                   FloatType: {NumType: NumType_any,
+                   FloatType: {NumType: FloatType_any,
                                IntType: FloatType_any,
                                FloatType: FloatType_any}},
     ast.Mult: {NumType: {NumType: NumType_any,
                          IntType: NumType_any,
-                         FloatType: NumType_any,
+                         FloatType: FloatType_any,
                          StrType: StrType_any,
                          ListType: keep_right,
                          TupleType: repeat_right},
-               FloatType: {NumType: NumType_any,
+               FloatType: {NumType: FloatType_any,
                            IntType: FloatType_any,
                            FloatType: FloatType_any},
                IntType: {NumType: NumType_any,
@@ -149,18 +149,18 @@ VALID_BINOP_TYPES = {
                         # A negative exponent makes this a float
                         IntType: NumType_any,
                         FloatType: FloatType_any},
-              FloatType: {NumType: NumType_any,
+              FloatType: {NumType: FloatType_any,
                           IntType: FloatType_any,
                           FloatType: FloatType_any}},
     # TODO: Should we allow old-fashioned string interpolation?
     # Currently, I vote no because it makes the code harder and is bad form.
     ast.Mod: {NumType: {NumType: NumType_any,
                         IntType: NumType_any,
-                        FloatType: NumType_any},
+                        FloatType: FloatType_any},
               IntType: {NumType: NumType_any,
                         IntType: IntType_any,
                         FloatType: FloatType_any},
-              FloatType: {NumType: NumType_any,
+              FloatType: {NumType: FloatType_any,
                           IntType: FloatType_any,
                           FloatType: FloatType_any}},
     ast.LShift: {NumType: {NumType: NumType_any,
